@@ -97,6 +97,11 @@ def make_store_class(base):
             if self.vf_yield is not None:
                 for _ in range(self.vf_yield.choice([0, 0, 1])):
                     await asyncio.sleep(0)
+            if self.vf_latency:
+                # reads suspend too on a networked store
+                await asyncio.sleep(self.vf_latency)
+                if self.vf_crashed:
+                    raise Crash()
             return await super().query(query)
 
     FaultStore.__name__ = "Fault" + base.__name__
